@@ -126,6 +126,7 @@ import json
 import os
 import random
 
+import translate as T
 from harness import common
 from harness.common import cN, cZ, cbool, clist, cnat, copt, cpair
 
@@ -1959,7 +1960,9 @@ def search(ck, seen):
 def run(ck) -> None:
     import logging
     logging.disable(logging.WARNING)
-    ck.trust("Coq 8.16.1 kernel (coqc; vm_compute in case files and in the witness lemmas; no native_compute)",
+    ck.trust("the statement normaliser and the fail-closed ast->Gallina translation of _remap_device_configurations in "
+             "harness/props/c13.py (its output is run against the method on a grid, including None-mapped values)",
+             "Coq 8.16.1 kernel (coqc; vm_compute in case files and in the witness lemmas; no native_compute)",
              "harness/props/c13.py (generators, dump of the implementation's object graph, Coq literal printer, oracle)",
              "coq/theories/C13/Iso.v (heap isomorphism check used by the case files; definitions only)",
              "environment contract: a pass only touches what is reachable from the model it is given and what it creates "
@@ -1972,12 +1975,19 @@ def run(ck) -> None:
                            "metadata, device annotations, functions, views, unsorted node lists) x clone entry point "
                            "(Graph/GraphView/Function/Model.clone, allow_outer_scope_values, deep_copy) x a random edit history "
                            "on either copy; non-trivial = the clone succeeded, allocated >= 10 cells and >= 1 edit was applied")
+    generate(ck)
     ck.prove()
     # Iso.v (case-file support, definitions only) is not in the closure of Property.v: build it explicitly
     rc, out = common.make([os.path.join("theories", PROP, "Iso.vo")], timeout=600)
     if rc != 0:
         ck.broken("build:C13/Iso.v", out[-2000:])
     seen: set = set()
+    # ---- the translated _remap_device_configurations against the method itself (translator validation)
+    try:
+        for m in remap_grid(ck, 150 if not ck.thorough else 1500)[:3]:
+            ck.broken("translation:_remap_device_configurations", json.dumps(m))
+    except RuntimeError as e:
+        ck.broken("translation:_remap_device_configurations", str(e))
     # ---- corpus + generated cases: correspondence model <-> implementation
     n = 120 if not ck.thorough else 4800
     nops = 6 if not ck.thorough else 10
@@ -2043,3 +2053,314 @@ def replay(rp: dict) -> int:
     keys, rest = classify(spec, fails)
     print(json.dumps({"spec": spec, "failures": rest, "known": keys}, indent=1))
     return 1 if rest else 0
+
+
+# --------------------------------------------------------------------------- per-run translation of _cloner.py
+
+PINNED_METHODS = ["_get_value", "_clone_or_get_value", "clone_attr", "clone_meta", "clone_node",
+                  "_remap_device_configurations", "clone_graph"]
+
+
+def _cloner_src() -> str:
+    return os.path.join(common.REPO, "src", "onnx_ir", "_cloner.py")
+
+
+def _norm_stmt(st) -> str:
+    """One statement, normalised: comments are gone in the ast; the MESSAGE of raise / assert is dropped."""
+    import ast
+    import copy
+    st = copy.deepcopy(st)
+    for n in ast.walk(st):
+        if isinstance(n, ast.Raise) and isinstance(n.exc, ast.Call):
+            n.exc.args = [ast.Constant("<msg>")] if n.exc.args else []
+        if isinstance(n, ast.Assert) and n.msg is not None:
+            n.msg = ast.Constant("<msg>")
+    return ast.unparse(st)
+
+
+def statement_list(fn) -> list[str]:
+    """The statements of a method, one string each, nested blocks flattened with a depth prefix; the header of a
+    compound statement is kept, its body follows.  Docstrings are skipped."""
+    import ast
+    out: list[str] = []
+
+    def block(stmts, depth):
+        for i, st in enumerate(stmts):
+            if i == 0 and isinstance(st, ast.Expr) and isinstance(st.value, ast.Constant) and isinstance(st.value.value, str):
+                continue
+            pre = ". " * depth
+            if isinstance(st, ast.For):
+                out.append(pre + f"for {ast.unparse(st.target)} in {ast.unparse(st.iter)}:")
+                block(st.body, depth + 1)
+                if st.orelse:
+                    out.append(pre + "for-else:")
+                    block(st.orelse, depth + 1)
+            elif isinstance(st, ast.If):
+                out.append(pre + f"if {ast.unparse(st.test)}:")
+                block(st.body, depth + 1)
+                if st.orelse:
+                    out.append(pre + "else:")
+                    block(st.orelse, depth + 1)
+            elif isinstance(st, (ast.While, ast.With, ast.Try, ast.FunctionDef, ast.ClassDef, ast.Match)):
+                raise T.Unsupported(f"statement form {type(st).__name__} in a pinned Cloner method")
+            else:
+                out.append(pre + _norm_stmt(st))
+    args = [a.arg for a in fn.args.args] + [f"{a.arg}=" for a in fn.args.kwonlyargs]
+    defaults = [ast.unparse(d) for d in fn.args.defaults]
+    out.append("def " + fn.name + "(" + ", ".join(args) + ") defaults " + ", ".join(defaults)
+               + " decorators " + ", ".join(ast.unparse(d) for d in fn.decorator_list))
+    block(fn.body, 0)
+    return out
+
+
+def cstring(x: str) -> str:
+    if any(ord(c) > 126 or ord(c) < 32 for c in x):
+        raise T.Unsupported(f"non-printable character in source statement {x!r}")
+    return '"' + x.replace('"', '""') + '"'
+
+
+PINNED_ELSEWHERE = [("_core.py", "Graph.clone", "graph_clone"), ("_core.py", "GraphView.clone", "view_clone"),
+                    ("_core.py", "Function.clone", "function_clone"), ("_core.py", "Model.clone", "model_clone"),
+                    (os.path.join("passes", "_pass_infra.py"), "_FunctionalPassWrapper.call", "functional_call")]
+
+
+def gen_text(prefix: str) -> str:
+    """Gallina text with one [list string] per pinned method (prefix = 'src' for Gen/C13Gen.v, 'pinned' for Pinned.v)."""
+    mod = T._src(_cloner_src())  # noqa: SLF001
+    items = [(mod, "Cloner." + m, m.lstrip("_")) for m in PINNED_METHODS]
+    for fn_, qual, nm in PINNED_ELSEWHERE:
+        items.append((T._src(os.path.join(common.REPO, "src", "onnx_ir", fn_)), qual, nm))  # noqa: SLF001
+    text, names = "", []
+    for m_, qual, nm in items:
+        stmts = statement_list(T.find_function(m_, qual))
+        names.append(f"{prefix}_{nm}")
+        text += (f"Definition {prefix}_{nm} : list string :=\n  [ "
+                 + ";\n    ".join(cstring(x) for x in stmts) + " ].\n\n")
+    text += f"Definition {prefix}_all : list (list string) :=\n  [ " + "; ".join(names) + " ].\n\n"
+    return text
+
+
+GEN_HEADER = """(* GENERATED by harness/props/c13.py from /repo/src/onnx_ir/_cloner.py on every run - do not edit. *)
+From Coq Require Import String List ZArith NArith PArith Bool.
+From IRV Require Import Base.Exn C13.Model C13.PyRemap.
+Import ListNotations.
+Local Open Scope string_scope.
+
+"""
+
+
+def generate(ck) -> bool:
+    try:
+        text = GEN_HEADER + "(* ---- the statements of the Cloner methods, one string per statement *)\n" + gen_text("src")
+        text += remap_translation()
+    except (T.Unsupported, SyntaxError, OSError, KeyError) as e:
+        ck.gen_failed("C13Gen", e)
+        return False
+    ck.gen("C13Gen", text)
+    return True
+
+
+class RemapTranslator:
+    """Fail-closed translation of Cloner._remap_device_configurations (a pure function of the value map and the
+    tuple of device configurations) into Gallina: assignments become lets, `xs.append(e)` becomes xs ++ [e], a for
+    loop becomes a fold_left over the tuple of the variables its body assigns, `continue` ends the loop body, an
+    `if` duplicates the rest of the block into both branches.  Anything outside this fragment raises Unsupported."""
+
+    FIELDS = {("spec", "value"): "sp_value", ("configuration", "sharding_specs"): "dc_specs"}
+    LIST_TYPES = {"new_configurations": "list devcfg", "new_specs": "list spec"}
+    LIST_NAMES = {"device_configurations"}
+    VAR_TYPES = {"new_configurations": "list devcfg", "new_specs": "list spec", "changed": "bool", "spec_changed": "bool",
+                 "configuration": "devcfg", "spec": "spec"}
+
+    def __init__(self):
+        self.scope = {"device_configurations"}
+
+    def expr(self, e) -> str:
+        import ast
+        if isinstance(e, ast.Name):
+            if e.id not in self.scope:
+                raise T.Unsupported(f"name {e.id} not in scope")
+            return e.id
+        if isinstance(e, ast.Constant):
+            if e.value is True:
+                return "true"
+            if e.value is False:
+                return "false"
+            raise T.Unsupported(f"constant {e.value!r}")
+        if isinstance(e, ast.Attribute) and isinstance(e.value, ast.Name):
+            key = (e.value.id, e.attr)
+            if key in self.FIELDS and e.value.id in self.scope:
+                return f"({self.FIELDS[key]} {e.value.id})"
+            raise T.Unsupported(f"attribute {ast.unparse(e)}")
+        if isinstance(e, ast.Compare) and len(e.ops) == 1:
+            l, op, r = e.left, e.ops[0], e.comparators[0]
+            if isinstance(op, ast.Is) and isinstance(r, ast.Constant) and r.value is None:
+                return f"(is_none {self.expr(l)})"
+            if isinstance(op, (ast.NotIn, ast.In)) and ast.unparse(r) == "self._value_map":
+                t = f"(vm_mem vm {self.expr(l)})"
+                return f"(negb {t})" if isinstance(op, ast.NotIn) else t
+            raise T.Unsupported(f"comparison {ast.unparse(e)}")
+        if isinstance(e, ast.Subscript) and ast.unparse(e.value) == "self._value_map":
+            return f"(vm_get vm {self.expr(e.slice)})"
+        if isinstance(e, ast.BoolOp):
+            op = " || " if isinstance(e.op, ast.Or) else " && "
+            return "(" + op.join(self.expr(v) for v in e.values) + ")"
+        if isinstance(e, ast.UnaryOp) and isinstance(e.op, ast.Not):
+            if isinstance(e.operand, ast.Name) and e.operand.id in self.LIST_NAMES:
+                return f"(py_not_list {self.expr(e.operand)})"
+            raise T.Unsupported(f"not on {ast.unparse(e.operand)}")
+        if isinstance(e, ast.IfExp):
+            return f"(if {self.expr(e.test)} then {self.expr(e.body)} else {self.expr(e.orelse)})"
+        if isinstance(e, ast.Call):
+            f = ast.unparse(e.func)
+            if f == "tuple" and len(e.args) == 1 and not e.keywords:
+                return self.expr(e.args[0])
+            if f == "dataclasses.replace" and len(e.args) == 1 and len(e.keywords) == 1 and isinstance(e.args[0], ast.Name):
+                kw = e.keywords[0]
+                if (e.args[0].id, kw.arg) not in self.FIELDS:
+                    raise T.Unsupported(f"replace of {e.args[0].id}.{kw.arg}")
+                return f"(upd_{e.args[0].id}_{kw.arg} {self.expr(e.args[0])} {self.expr(kw.value)})"
+            raise T.Unsupported(f"call {ast.unparse(e)}")
+        raise T.Unsupported(f"expression {ast.unparse(e)}")
+
+    @staticmethod
+    def assigned(stmts) -> list[str]:
+        import ast
+        out: list[str] = []
+        for st in stmts:
+            for n in ast.walk(st):
+                name = None
+                if isinstance(n, ast.Assign) and len(n.targets) == 1 and isinstance(n.targets[0], ast.Name):
+                    name = n.targets[0].id
+                elif isinstance(n, ast.AnnAssign) and isinstance(n.target, ast.Name):
+                    name = n.target.id
+                elif isinstance(n, ast.Expr) and isinstance(n.value, ast.Call) and isinstance(n.value.func, ast.Attribute) \
+                        and n.value.func.attr == "append" and isinstance(n.value.func.value, ast.Name):
+                    name = n.value.func.value.id
+                if name is not None and name not in out:
+                    out.append(name)
+        return out
+
+    def block(self, stmts, loop_k, ind) -> str:
+        """stmts then (in a loop body) the tuple of loop variables; outside a loop every path must return."""
+        import ast
+        pad = "  " * ind
+        if not stmts:
+            if loop_k is None:
+                raise T.Unsupported("a path of the function does not return")
+            return pad + loop_k
+        st, rest = stmts[0], stmts[1:]
+        if isinstance(st, ast.Expr) and isinstance(st.value, ast.Constant) and isinstance(st.value.value, str):
+            return self.block(rest, loop_k, ind)
+        if isinstance(st, ast.Continue):
+            if loop_k is None:
+                raise T.Unsupported("continue outside a loop")
+            return pad + loop_k
+        if isinstance(st, ast.Return):
+            if loop_k is not None or st.value is None:
+                raise T.Unsupported("return inside a loop / bare return")
+            return pad + self.expr(st.value)
+        if isinstance(st, (ast.Assign, ast.AnnAssign)):
+            tgt = st.targets[0] if isinstance(st, ast.Assign) else st.target
+            if not isinstance(tgt, ast.Name) or (isinstance(st, ast.Assign) and len(st.targets) != 1):
+                raise T.Unsupported(f"assignment {ast.unparse(st)}")
+            if isinstance(st.value, ast.List) and not st.value.elts:
+                if tgt.id not in self.LIST_TYPES:
+                    raise T.Unsupported(f"empty list of unknown element type: {tgt.id}")
+                val = f"([] : {self.LIST_TYPES[tgt.id]})"
+            else:
+                val = self.expr(st.value)
+            self.scope.add(tgt.id)
+            return pad + f"let {tgt.id} := {val} in\n" + self.block(rest, loop_k, ind)
+        if isinstance(st, ast.Expr) and isinstance(st.value, ast.Call) and isinstance(st.value.func, ast.Attribute) \
+                and st.value.func.attr == "append" and isinstance(st.value.func.value, ast.Name) and len(st.value.args) == 1:
+            x = st.value.func.value.id
+            if x not in self.scope:
+                raise T.Unsupported(f"append to unknown {x}")
+            return pad + f"let {x} := ({x} ++ [{self.expr(st.value.args[0])}]) in\n" + self.block(rest, loop_k, ind)
+        if isinstance(st, ast.If):
+            scope0 = set(self.scope)
+            a = self.block(list(st.body) + list(rest), loop_k, ind + 1)
+            self.scope = set(scope0)
+            b = self.block(list(st.orelse) + list(rest), loop_k, ind + 1)
+            self.scope = scope0
+            return pad + f"if {self.expr(st.test)} then\n{a}\n" + pad + f"else\n{b}"
+        if isinstance(st, ast.For) and isinstance(st.target, ast.Name) and not st.orelse:
+            mvars = [v for v in self.assigned(st.body) if v in self.scope]
+            if not mvars:
+                raise T.Unsupported("loop without effect")
+            tup = mvars[0] if len(mvars) == 1 else "(" + ", ".join(mvars) + ")"
+            pat = mvars[0] if len(mvars) == 1 else "'(" + ", ".join(mvars) + ")"
+            it = self.expr(st.iter)
+            scope0 = set(self.scope)
+            self.scope.add(st.target.id)
+            body = self.block(list(st.body), tup, ind + 2)
+            self.scope = scope0
+            for v in mvars + [st.target.id]:
+                if v not in self.VAR_TYPES:
+                    raise T.Unsupported(f"variable {v} of unknown type")
+            sty = " * ".join(self.VAR_TYPES[v] for v in mvars)
+            return (pad + f"let {pat} := fold_left (fun (st_ : {sty}) ({st.target.id} : {self.VAR_TYPES[st.target.id]}) => "
+                    f"let {pat} := st_ in\n{body})\n"
+                    + pad + f"  {it} {tup} in\n" + self.block(rest, loop_k, ind))
+        raise T.Unsupported(f"statement {ast.unparse(st)[:60]}")
+
+
+def remap_translation() -> str:
+    mod = T._src(_cloner_src())  # noqa: SLF001
+    fn = T.find_function(mod, "Cloner._remap_device_configurations")
+    if [a.arg for a in fn.args.args] != ["self", "device_configurations"]:
+        raise T.Unsupported("signature of _remap_device_configurations")
+    body = RemapTranslator().block(list(fn.body), None, 1)
+    return ("Local Close Scope string_scope.\nLocal Open Scope list_scope.\n"
+            "(* ---- translated from _cloner.py::Cloner._remap_device_configurations  ast=" + T.ast_digest(fn) + " *)\n"
+            "Definition gen_remap (vm : pyvmap) (device_configurations : list devcfg) : list devcfg :=\n" + body + ".\n")
+
+
+# --------------------------------------------------------------------------- the translation against the method itself
+
+def remap_grid(ck, n: int) -> list[dict]:
+    """Cloner._remap_device_configurations on random value maps (entries mapped to a Value, mapped to None, absent) and
+    random device configurations, against the translated gen_remap evaluated inside Coq."""
+    import onnx_ir as ir
+    from onnx_ir import _cloner
+    rng = ck.rng
+    vals = [ir.Value(name=f"v{i}") for i in range(8)]
+    cfgs = [ir.ModelConfiguration(f"c{i}", 2) for i in range(3)]
+    rows, meta = [], []
+    for _ in range(n):
+        vm = {}
+        for v in rng.sample(vals[:5], rng.randrange(0, 5)):
+            vm[v] = rng.choice([None, vals[5], vals[6], vals[7]])
+        dcs = []
+        for _c in range(rng.choice([0, 1, 1, 2, 3])):
+            specs = tuple(ir.ShardingSpec(value=rng.choice([None] + vals[:5]), device=(rng.randrange(3),))
+                          for _s in range(rng.choice([0, 1, 2, 3])))
+            dcs.append(ir.NodeDeviceConfiguration(configuration=rng.choice(cfgs), sharding_specs=specs,
+                                                  pipeline_stage=rng.choice([None, 0, 2])))
+        cl = _cloner.Cloner(attr_map={}, value_map=vm, metadata_props={})
+        out = cl._remap_device_configurations(tuple(dcs))  # noqa: SLF001
+        vid = {id(v): i + 1 for i, v in enumerate(vals)}
+
+        def dc_term(ds):
+            return clist(
+                "(Dev " + cN(cfgs.index(d.configuration)) + " " + oZ(d.pipeline_stage) + " "
+                + clist(f"(Spc {oP(None if s.value is None else vid[id(s.value)])} {cN(s.device[0])})" for s in d.sharding_specs)
+                + ")" for d in ds)
+        vmt = clist(f"({vid[id(k)]}, {oP(None if v is None else vid[id(v)])})" for k, v in vm.items())
+        rows.append(f"({vmt}, {dc_term(dcs)}, {dc_term(out)})")
+        meta.append({"value_map": [(k.name, None if v is None else v.name) for k, v in vm.items()],
+                     "configs": [[(None if s.value is None else s.value.name) for s in d.sharding_specs] for d in dcs],
+                     "out": [[(None if s.value is None else s.value.name) for s in d.sharding_specs] for d in out]})
+    text = ("From Coq Require Import List ZArith NArith PArith Bool.\n"
+            "From IRV Require Import Base.Exn C13.Model C13.Iso C13.PyRemap Gen.C13Gen.\nImport ListNotations.\n"
+            "Local Open Scope positive_scope.\n"
+            "Definition rows : list (pyvmap * list devcfg * list devcfg) :=\n [" + ";\n  ".join(rows) + "].\n"
+            "Definition ok (r : pyvmap * list devcfg * list devcfg) : bool :=\n"
+            "  let '(vm, dcs, out) := r in if list_eq_dec devcfg_dec (gen_remap vm dcs) out then true else false.\n"
+            "Eval vm_compute in (failing ok rows).\n")
+    bad = ck.coq_failing(text, "remap_grid")
+    ck.count(n)
+    ck.hist("function_grid", "_remap_device_configurations", n)
+    ck.hist("function_grid", "with a None-mapped value", sum(1 for m in meta if any(v is None for _, v in m["value_map"])))
+    return [meta[i] for i in bad]
